@@ -333,7 +333,9 @@ func (l *Lexer) consumeEscape() bool {
 				break
 			}
 		}
-		l.consumeWhitespace()
+		if !l.consumeNewline() { // a hex escape is ended by one whitespace; CR LF is one newline
+			l.consumeWhitespace()
+		}
 		return true
 	} else {
 		c := l.r.Peek(0)
